@@ -1469,7 +1469,9 @@ class ClassGen:
                 lead = rng.choice(["", "", "const ", "volatile "]) if tr else ""
                 trail = rng.choice(["", "", " const"]) if tr and not lead else ""
                 cv = dict(const=("const" in lead or "const" in trail), volatile="volatile" in lead)
-                outer_lines.append(ind + "%s%s {" % (lead, kk))
+                # an attribute between the key and the brace does not make the type any less anonymous: it still takes the next id
+                attr = rng.choice(["", "", "", " __attribute__((packed))", " __declspec(align(8))", " alignas(8)", " [[deprecated]]"])
+                outer_lines.append(ind + "%s%s%s {" % (lead, kk, attr))
                 outer_lines.append(ind + "  int in%d;" % k)
                 outer_lines.append(ind + "}" + trail + (" " + ", ".join(tr) if tr else "") + ";")
                 sub = dict(name=None, key=kk, bases=[], final=False, fields=[("in%d" % k, "public", {})], methods=[], friends=[], typedefs=[],
